@@ -19,12 +19,14 @@ TYPES = {'unsigned char': (8, 0), 'signed char': (8, 1), 'char': (8, 1), 'unsign
          'unsigned long': (64, 0), 'long': (64, 1), 'unsigned long long': (64, 0), 'long long': (64, 1)}
 CFUNCS = ['q_strtol', 'q_strtoll', 'q_strtoul', 'q_strtoull', 'q_strtol_null', 'q_strtoul_null', 'q_atoi', 'q_atol', 'q_atoll']
 STOFUNCS = ['q_stoi', 'q_stol', 'q_stoll', 'q_stoul', 'q_stoull', 'q_stoi_nullpos', 'q_stoi_def']
-def can_overflow(t, n, base=36):
-    bits, s = TYPES[t]
-    return base ** n - 1 > (1 << (bits - s)) - 1
 US = {'ll_undef_bytes.0': 80, 'll_memcpy.0': 80, 'll_memset.0': 80}
 for _w, _n in ((8, 10), (16, 18), (32, 34), (64, 66)):
     for _f in ('ctpop', 'ctlz', 'cttz'): US['ll_%s_%d.0' % (_f, _w)] = _n
+def can_overflow(t, n, base=None):
+    """can a text of n characters overflow t in the given base (None: symbolic base, i.e. base 36)"""
+    bits, s = TYPES[t]
+    if n < 1: return False
+    return (base or 36) ** n - 1 > (1 << (bits - s)) - 1
 def q(entry, cfg, ub, solver='minisat', budget=120):
     return dict(entry=entry, cfg=cfg, unwind=cfg['SN'] + 3, unwindset=US, budget=budget, ub=ub, nofunc=ub, solver=solver)
 def queries(tier, prop='C10'):
@@ -33,23 +35,47 @@ def queries(tier, prop='C10'):
     out = []
     narrow = ['unsigned char', 'signed char', 'unsigned short', 'short'] + (['char'] if thorough else [])
     wide = ['unsigned', 'int', 'unsigned long', 'long'] + (['unsigned long long', 'long long'] if thorough else [])
+    def both(cfg, sv='minisat', bud=120):
+        out.append(q('q_from_chars', cfg, ub, sv, bud))
+        out.append(q('q_to_integer', cfg, ub, sv, bud))
+    # ---- base symbolic over 2..36
     for t in narrow + wide:
-        nmax = (6 if thorough else 4) if t in narrow else (5 if thorough else 3)
+        bits, s = TYPES[t]
+        nmax = {8: 4, 16: 3}.get(bits, 2) if thorough else {8: 2}.get(bits, 1)
         for n in range(0, nmax + 1):
             cfg = {'TY': t, 'SN': n, 'WOVF': int(can_overflow(t, n))}
-            sv, bud = ('minisat', 120) if n <= 4 else ('kissat', 900)
-            out.append(q('q_from_chars', cfg, ub, sv, bud))
-            out.append(q('q_to_integer', cfg, ub, sv, bud))
+            sv, bud = ('minisat', 120) if not thorough else ('kissat', 900)
+            both(cfg, sv, bud)
             if n in (0, 1, 3): out.append(q('q_from_chars_def', dict(cfg, WOVF=int(can_overflow(t, n, 10))), ub, sv, bud))
+    # ---- base enumerated
+    for t in narrow + wide:
+        bits, s = TYPES[t]
+        if thorough: bases, ns = (2, 8, 10, 16, 36), (range(0, 7) if bits <= 16 else range(0, 6))
+        elif bits <= 16: bases, ns = (2, 10, 16, 36), range(0, 5)
+        elif bits == 32: bases, ns = (10, 16, 36), (0, 1, 3, 4)
+        else: bases, ns = (10, 16), (0, 1, 3, 4)
+        for b in bases:
+            for n in ns:
+                cfg = {'TY': t, 'SN': n, 'BASE': b, 'WOVF': int(can_overflow(t, n, b))}
+                sv, bud = ('minisat', 120) if n <= 4 else ('kissat', 900)
+                both(cfg, sv, bud)
+                if b == 10 and n in (3, 4): out.append(q('q_from_chars_def', cfg, ub, sv, bud))
     if thorough:
         for t in ('unsigned', 'int'):
             for n in (7, 8):
-                cfg = {'TY': t, 'SN': n, 'BASE': 36, 'WOVF': 1}
-                out.append(q('q_from_chars', cfg, ub, 'kissat', 900))
-                out.append(q('q_to_integer', cfg, ub, 'kissat', 900))
-    for n in range(0, (5 if thorough else 4) + 1):
-        cfg = {'TY': 'int', 'SN': n, 'WOVF': int(can_overflow('int', n))}
-        sv, bud = ('minisat', 120) if n <= 4 else ('kissat', 900)
+                both({'TY': t, 'SN': n, 'BASE': 36, 'WOVF': 1}, 'kissat', 900)
+    # ---- strtol family, ato*, sto* (TY is irrelevant for them): base symbolic over {0, 2..36} for short texts, enumerated for longer ones
+    ATO = ('q_atoi', 'q_atol', 'q_atoll', 'q_stoi_def')
+    for n in range(0, (3 if thorough else 2) + 1):
+        cfg = {'TY': 'int', 'SN': n, 'WOVF': 0}
+        sv, bud = ('minisat', 120) if n <= 2 else ('kissat', 900)
         for e in CFUNCS + (STOFUNCS if n >= 1 else []):
             out.append(q(e, cfg, ub, sv, bud))
+    for b in ((2, 8, 10, 16, 36) if thorough else (10, 16)):
+        for n in ((3, 4, 5) if thorough else (3, 4)):
+            cfg = {'TY': 'int', 'SN': n, 'BASE': b, 'WOVF': 0}
+            sv, bud = ('minisat', 120) if n <= 4 else ('kissat', 900)
+            for e in CFUNCS + STOFUNCS:
+                if e in ATO and b != 10: continue
+                out.append(q(e, cfg, ub, sv, bud))
     return out
